@@ -333,3 +333,57 @@ Proof.
   intros j i b Hj Hi Hvb. rewrite Hv by auto. apply zsum_ext. intros k Hk. unfold Tspec.
   destruct (k <=? i); reflexivity.
 Qed.
+
+(* ------------------------------------------------------------------------------------------ *)
+(* zero-padded circulant embeddings (an FFT length L >= 2n - 1, e.g. the next power of two) *)
+
+(* zero-padded circulant embedding of length L: the column at [0, n), zeros, the reversed row r[1:] at the END
+   (position L - d holds r[d], d = 1 .. n-1) *)
+Definition crr_pad (n L : nat) (cf rf : nat -> Z) (m : nat) : Z :=
+  if m <? n then cf m
+  else if (L - (n - 1) <=? m) && (m <? L) then rf (L - m) else 0%Z.
+
+(* the WRONG placement: the reversed row directly behind the column (positions n .. 2n-2), zeros after it *)
+Definition crr_pad_at_n (n L : nat) (cf rf : nat -> Z) (m : nat) : Z :=
+  if m <? n then cf m
+  else if (n <=? m) && (m <? n + (n - 1)) then rf (n + (n - 1) - m) else 0%Z.
+
+Lemma circ_toeplitz_padded n L (cf rf x : nat -> Z) i : 1 <= n -> 2 * n - 1 <= L -> i < n ->
+  zsum L (fun k => (crr_pad n L cf rf ((i + L - k) mod L)%nat * (if (k <? n)%nat then x k else 0))%Z)
+  = zsum n (fun k => (Tspec cf rf i k * x k)%Z).
+Proof.
+  intros Hn HL Hi. replace L with (n + (L - n)) at 1 by lia. rewrite zsum_app.
+  rewrite (zsum_zero (L - n)).
+  2:{ intros k Hk. replace (n + k <? n) with false by (symmetry; apply Nat.ltb_ge; lia). ring. }
+  rewrite Z.add_0_r. apply zsum_ext. intros k Hk.
+  replace (k <? n) with true by (symmetry; apply Nat.ltb_lt; lia). f_equal.
+  unfold Tspec, crr_pad. destruct (Nat.leb_spec k i).
+  - replace (i + L - k) with ((i - k) + 1 * L) by lia.
+    rewrite Nat.mod_add by lia. rewrite Nat.mod_small by lia.
+    replace (i - k <? n) with true by (symmetry; apply Nat.ltb_lt; lia). reflexivity.
+  - rewrite Nat.mod_small by lia.
+    replace (i + L - k <? n) with false by (symmetry; apply Nat.ltb_ge; lia).
+    replace (L - (n - 1) <=? i + L - k) with true by (symmetry; apply Nat.leb_le; lia).
+    replace (i + L - k <? L) with true by (symmetry; apply Nat.ltb_lt; lia).
+    simpl. f_equal. lia.
+Qed.
+
+(* with L = 2n - 1 the padded embedding is the unpadded one *)
+Lemma crr_pad_exact n cf rf m : 1 <= n -> m < 2 * n - 1 -> crr_pad n (2 * n - 1) cf rf m = crr n cf rf m.
+Proof.
+  intros Hn Hm. unfold crr_pad, crr.
+  repeat match goal with
+  | |- context [Nat.leb ?a ?b] => destruct (Nat.leb_spec a b)
+  | |- context [Nat.ltb ?a ?b] => destruct (Nat.ltb_spec a b)
+  end; cbn [andb]; try lia; try reflexivity; f_equal; lia.
+Qed.
+
+Lemma circ_toeplitz_padded_at_n_refuted :
+  exists n L (cf rf x : nat -> Z) i, 1 <= n /\ 2 * n - 1 <= L /\ i < n /\
+  zsum L (fun k => (crr_pad_at_n n L cf rf ((i + L - k) mod L)%nat * (if (k <? n)%nat then x k else 0))%Z)
+  <> zsum n (fun k => (Tspec cf rf i k * x k)%Z).
+Proof.
+  exists 2, 4, (fun d => if d =? 0 then 1%Z else 2%Z), (fun d => if d =? 0 then 1%Z else 3%Z),
+         (fun k => if k =? 0 then 0%Z else 1%Z), 0.
+  repeat split; try lia. vm_compute. discriminate.
+Qed.
